@@ -159,6 +159,50 @@ func run(e *core.Env) {
 		e.Probe("session_that_rolled_its_keys_before")
 	}
 
+	// ... or both routers have set up new keys on their live sessions after earlier traffic of
+	// both encrypted classes (a hello request served on the live session re-keys it in place).
+	if tp.Chance(1, 5) {
+		for i, k := 0, 1+tp.Intn(120); i < k; i++ {
+			pmt := frame.NetworkTraffic
+			if tp.Chance(1, 3) {
+				pmt = frame.RouterCtrl
+			}
+			body := tp.Bytes(1 + tp.Intn(40))
+			f, err := A.Inst.Builder.NewFrameV1(A.IP, B.IP, pmt, nil, body, nil)
+			if err != nil {
+				e.Infra("prelude frame: %v", err)
+			}
+			if err := f.Seal(sessAB); err != nil {
+				e.Infra("prelude seal: %v", err)
+			}
+			d, _ := f.FrameDataWithMargins(0, 0)
+			w := append([]byte(nil), d...)
+			f.ReturnToPool()
+			if got, err := unsealAt(B.Inst.Builder, sessBA, w); err != nil || !bytes.Equal(got, body) {
+				e.Fail("round-trip-fails/earlier-traffic", "frame %d of earlier traffic A->B does not round-trip: %v", i, err)
+			}
+		}
+		// as the hello ping does it: the client side sets up a fresh encryption session and
+		// installs it when the exchange is complete, the server side re-keys its live one
+		enc := state.NewEncryptionSession()
+		kx, kxt, err := enc.InitKeyClientStart()
+		if err != nil {
+			e.Infra("kx: %v", err)
+		}
+		kx2, kxt2, err := sessBA.Encryption().InitKeyServer(kx, kxt)
+		if err != nil {
+			e.Infra("kx: %v", err)
+		}
+		if err := enc.InitKeyClientComplete(kx2, kxt2); err != nil {
+			e.Infra("kx: %v", err)
+		}
+		enc.InitCleanup()
+		if err := A.State.SetEncryptionSession(B.IP, enc); err != nil {
+			e.Infra("set session: %v", err)
+		}
+		e.Probe("session_re_keyed_after_earlier_traffic")
+	}
+
 	mt := msgTypes[tp.Intn(len(msgTypes))]
 	encrypted := mt.IsEncrypted()
 	authSize := 64
